@@ -6,6 +6,7 @@ import (
 
 	"github.com/cbehopkins/gkvlite"
 
+	"verifharness/decoder"
 	"verifharness/memfile"
 )
 
@@ -16,7 +17,7 @@ type Profile map[string]int
 var profiles = map[string]Profile{
 	// C01: sorted-map behaviour, flush/evict/reopen anywhere
 	"map": {"set": 30, "setrand": 6, "setbad": 3, "del": 12, "get": 14, "exist": 4, "min": 3, "max": 3,
-		"totals": 4, "visit": 6, "flush": 6, "evict": 6, "reopen": 3, "setcoll": 3, "obs": 5, "names": 1, "memstore": 1},
+		"totals": 4, "visit": 6, "flush": 6, "evict": 6, "reopen": 3, "setcoll": 3, "obs": 5, "names": 1, "memstore": 1, "private": 1},
 	// C02/C14: durability
 	"durable": {"set": 30, "del": 8, "get": 4, "flush": 12, "evict": 3, "reopen": 6, "setcoll": 4, "removecoll": 2,
 		"obs": 4, "collwrite": 1, "visit": 2},
@@ -24,18 +25,22 @@ var profiles = map[string]Profile{
 	"visit": {"set": 24, "setrand": 4, "del": 8, "visit": 30, "flush": 4, "evict": 6, "reopen": 3, "obs": 6, "get": 3, "setcoll": 1},
 	// C04/C10: snapshots and handle lifetimes
 	"snap": {"set": 26, "del": 10, "snapshot": 8, "snapread": 10, "snapclose": 6, "snaprevert": 2, "snapsnap": 2, "snapwrite": 3,
-		"flush": 4, "evict": 3, "setcoll": 4, "removecoll": 3, "obs": 8, "get": 3, "otheralloc": 5, "reopen": 1, "visit": 3, "collwrite": 2},
+		"flush": 4, "evict": 3, "setcoll": 4, "removecoll": 3, "obs": 8, "get": 3, "otheralloc": 5, "reopen": 1, "visit": 3, "collwrite": 2, "oldread": 2},
 	// C08: flush / revert
 	"revert": {"set": 20, "del": 6, "flush": 14, "revert": 10, "reopen": 6, "obs": 6, "setcoll": 3, "removecoll": 1, "get": 2,
 		"collwrite": 3, "writerevert": 3, "delroot": 2},
 	// C12: collection management
 	"colls": {"set": 20, "del": 6, "setcoll": 12, "removecoll": 8, "names": 6, "flush": 6, "reopen": 4, "obs": 8,
-		"snapshot": 2, "snapclose": 2, "get": 4, "evict": 2},
+		"snapshot": 2, "snapclose": 2, "get": 4, "evict": 2, "private": 3},
 	// C11: CopyTo
 	"copy": {"set": 30, "del": 6, "flush": 5, "evict": 4, "reopen": 2, "setcoll": 4, "copyto": 6, "snapshot": 2, "obs": 3, "removecoll": 1},
 	// C19: lazy loading: large values, key-only operations in every cache state
 	"lazy": {"set": 20, "del": 8, "get": 14, "exist": 6, "min": 4, "max": 4, "visit": 12, "len": 3, "totals": 2, "enum": 1,
 		"flush": 8, "evict": 8, "reopen": 6, "obs": 2, "setcoll": 1, "burst": 4},
+	// C15 / C10: lazily loaded nodes under several handles: re-open often, keep
+	// snapshots on older versions, read through them after the original moved on
+	"lazyrefs": {"set": 24, "del": 8, "flush": 8, "reopen": 9, "snapshot": 6, "snapread": 18, "snapclose": 9, "get": 5, "visit": 4,
+		"evict": 3, "setcoll": 1, "removecoll": 1, "obs": 3, "min": 2, "max": 2, "oldread": 6},
 	// C15: reference counting (no Get/Exist: they do not hand the item out)
 	"refs": {"set": 26, "setrand": 4, "del": 10, "get": 10, "min": 3, "max": 3, "visit": 8, "flush": 6, "evict": 8, "exist": 4, "len": 2, "enum": 2,
 		"reopen": 3, "snapshot": 3, "snapread": 4, "snapclose": 3, "setcoll": 3, "removecoll": 2, "obs": 4, "valburst": 2},
@@ -48,6 +53,7 @@ type seqCfg struct {
 	big      bool
 	memOnly  bool
 	prioMode int // 0 random int31, 1 tiny range (ties, lowering), 2 increasing, 3 decreasing
+	peekOnly bool // observations in the middle of a history never load anything (introspection + decoder only)
 }
 
 type seqRun struct {
@@ -93,7 +99,7 @@ func (r *seqRun) prio() int32 {
 func (r *seqRun) anyName() string { return r.w.U.Names[r.w.rng.Intn(len(r.w.U.Names))] }
 
 func (r *seqRun) existingName(h *StoreH) (string, bool) {
-	ns := h.St.GetCollectionNames()
+	ns := r.w.collNames(h)
 	if len(ns) == 0 {
 		return "", false
 	}
@@ -337,6 +343,9 @@ func (r *seqRun) step() bool {
 			}
 		}
 		r.main = h
+		if r.cfg.peekOnly {
+			return w.Obs(h, "peek", "C02")
+		}
 		return w.Obs(h, []string{"api", "peek"}[w.rng.Intn(2)], "C02")
 	case "setcoll":
 		return w.SetColl(m, r.anyName())
@@ -351,6 +360,9 @@ func (r *seqRun) step() bool {
 		return true
 	case "obs":
 		h := r.reader()
+		if r.cfg.peekOnly {
+			return w.Obs(h, "peek")
+		}
 		return w.Obs(h, []string{"api", "peek"}[w.rng.Intn(2)])
 	case "snapshot":
 		if len(r.snaps) >= 4 {
@@ -429,6 +441,92 @@ func (r *seqRun) step() bool {
 			ok = w.Close(d)
 		}
 		return ok && w.Obs(src, "peek", "C11")
+	case "private":
+		// a private (unregistered) collection of the main store: a burst of
+		// sorted-map calls, a complete observation, then it is forgotten.  Not
+		// under reference-counting callbacks (nothing ever releases its items).
+		if w.cbMask&(cbAddRef|cbDecRef) != 0 {
+			return true
+		}
+		name := r.anyName()
+		p := w.NewPrivate(m, name)
+		if p == nil {
+			return false
+		}
+		for i := 0; i < 4+w.rng.Intn(10); i++ {
+			ok := true
+			switch w.rng.Intn(8) {
+			case 0, 1, 2, 3:
+				val, _ := w.U.NewValue(w.rng, false, nil)
+				ok = w.SetKV(p, name, r.anyKey(name), val, r.prio(), w.rng.Intn(4) == 0, nil)
+			case 4:
+				ok = w.Del(p, name, r.anyKey(name), nil)
+			case 5:
+				ok = w.Get(p, name, r.anyKey(name), w.rng.Intn(2) == 0, nil)
+			case 6:
+				ok = r.readOp(p, []string{"min", "max", "totals", "visit", "exist", "len"}[w.rng.Intn(6)])
+			case 7:
+				ok = w.Obs(p, []string{"api", "peek"}[w.rng.Intn(2)], "C01")
+			}
+			if !ok {
+				return false
+			}
+		}
+		ok := w.Obs(p, "api", "C01") && w.Obs(m, "peek", "C12")
+		w.DropPrivate(p)
+		return ok
+	case "oldread":
+		// everything on file and nothing in memory; a snapshot; the original
+		// overwrites keys that exist (the replaced nodes keep child locations that
+		// were never fetched); then the snapshot reads the whole old version
+		// through those locations; then it is closed
+		if m.File == nil || len(r.snaps) > 0 {
+			return true
+		}
+		if !w.Flush(m, nil) {
+			return false
+		}
+		f := m.File
+		if !w.Close(m) {
+			return false
+		}
+		h := w.Open(f, nil)
+		if h == nil {
+			return false
+		}
+		r.main, m = h, h
+		name, ok := r.existingName(m)
+		if !ok {
+			return true
+		}
+		var keys [][]byte
+		if d := decoder.Decode(f.Bytes(), -1); d.Root != nil {
+			for _, nd := range decoder.InOrder(d.Root.Colls[name], nil) {
+				if nd.Item != nil {
+					keys = append(keys, nd.Item.Key)
+				}
+			}
+		}
+		sn := w.Snapshot(m)
+		if sn == nil {
+			return false
+		}
+		for i := 0; i < 1+w.rng.Intn(3) && len(keys) > 0; i++ {
+			val, _ := w.U.NewValue(w.rng, false, nil)
+			if !w.SetKV(m, name, keys[w.rng.Intn(len(keys))], val, r.prio(), false, nil) {
+				return false
+			}
+		}
+		for _, k := range keys {
+			if !w.Get(sn, name, k, w.rng.Intn(2) == 0, nil) {
+				return false
+			}
+		}
+		if w.rng.Intn(2) == 0 {
+			r.snaps = append(r.snaps, sn)
+			return true
+		}
+		return w.Close(sn) && w.Obs(m, "peek", "C04")
 	case "otheralloc":
 		// unrelated allocation in another store of the same process: reuses
 		// whatever is on the package-wide free lists
@@ -482,11 +580,13 @@ func runHistory(w *World, cfg seqCfg) bool {
 	if w.rng.Intn(8) != 0 && !w.SetColl(r.main, r.anyName()) {
 		return false
 	}
+	w.forcePeek = cfg.peekOnly
 	for i := 0; i < cfg.steps; i++ {
 		if !r.step() {
 			return false
 		}
 	}
+	w.forcePeek = false
 	// final observation of every open handle, then close everything
 	for _, id := range w.storeIDs() {
 		if !w.Obs(w.stores[id], "api") {
